@@ -285,6 +285,24 @@ Proof.
   - intros x Hx. apply Hincl. right; auto.
 Qed.
 
+(* ---------------------------------------------------------------- shrink_data, concatenate(axis=1) *)
+Lemma wf_shrink st i : wf st -> i < length (seqs st) -> scache (getseq st i) = None -> wf (shrink st i).
+Proof.
+  intros W Hi Hc. unfold shrink. destruct (is_view (getseq st i)) eqn:Ev; auto.
+  destruct (wf_chain st i W Hi Ev) as (C1 & C2).
+  rewrite (next_offset_chain 0) by auto.
+  set (n := cend 0 (offs (getseq st i)) (lens (getseq st i))) in *.
+  apply wf_set_buf_owner; auto; cbn [rows cap]; rewrite ?firstn_length, ?Hc; auto; unfold rows_of in C2; lia.
+Qed.
+
+Lemma zip_rows_length n : forall rs, rs <> [] -> Forall (fun r => length r = n) rs -> length (zip_rows rs) = n.
+Proof.
+  induction rs as [|r rs IH]; intros NE HF; [congruence|].
+  inversion HF; subst. destruct rs as [|r2 rs]; [reflexivity|].
+  change (zip_rows (r :: r2 :: rs)) with (zip_with (fun a b => (a + cat_base * b)%Z) r (zip_rows (r2 :: rs))).
+  rewrite zip_with_length; auto. rewrite IH; auto. discriminate.
+Qed.
+
 (* ---------------------------------------------------------------- every step keeps the invariant *)
 Lemma is_live_lt st i : is_live st i = true -> i < length (seqs st).
 Proof. unfold is_live. intros H. apply andb_prop in H. destruct H as (H & _). apply Nat.ltb_lt; auto. Qed.
@@ -328,6 +346,7 @@ Arguments assign_seq : simpl never.
 Arguments assign_rows : simpl never.
 Arguments op_seq_inplace : simpl never.
 Arguments op_seq_rows : simpl never.
+Arguments zip_rows : simpl never.
 Arguments fill_buf : simpl never.
 Arguments write_buf : simpl never.
 Arguments new_view : simpl never.
@@ -458,6 +477,39 @@ Proof.
         -- cbn [rows cap]. rewrite LR0, <- LR. exact HC.
         -- cbn [rows]. unfold st2. rewrite rows_of_new_buf_for. rewrite LR0, <- LR. apply le_n.
       * apply wf_set_buf_ge; auto; cbn [rows cap]; rewrite LR0, <- LR; [exact HC|apply le_n].
+  - (* OAppendBad: a refusal *)
+    destruct (is_live st i); simpl; auto. destruct (offs (getseq st i)), (scache (getseq st i)); simpl; auto.
+  - (* OShrink *)
+    destruct (is_live st i) eqn:L; simpl; auto. apply is_live_lt in L.
+    destruct (scache (getseq st i)) eqn:Ec; simpl; auto. apply wf_shrink; auto.
+  - (* OConcat1 *)
+    destruct js as [|j0 js]; simpl; auto.
+    destruct (is_live st j0 && forallb (is_live st) js) eqn:L; simpl; auto.
+    apply andb_prop in L. destruct L as (L & _). apply is_live_lt in L.
+    destruct (sum (lens (getseq st j0)) =? 0) eqn:E0; simpl; auto.
+    set (rs := concat (contents st (getseq st j0)) :: map (fun j => concat (contents st (getseq st j))) js).
+    match goal with |- context [if ?c then _ else _] => destruct c eqn:EF end; simpl; auto.
+    assert (EF' : forallb (fun r => length r =? sum (lens (getseq st j0))) rs = true) by exact EF.
+    assert (LZ : length (zip_rows rs) = sum (lens (getseq st j0))).
+    { apply zip_rows_length; [unfold rs; discriminate|].
+      apply Forall_forall. intros r Hr. rewrite forallb_forall in EF'. apply Nat.eqb_eq. apply EF'; auto. }
+    fold rs.
+    destruct (do_copy_spec st j0 W L) as (W1 & K1 & L1 & G1 & C1 & R1).
+    set (st1 := do_copy st j0) in *. set (k := length (seqs st)) in *.
+    assert (Hk : k < length (seqs st1)) by lia.
+    assert (LR : length (rows (getbuf (heap st1) (sbuf (getseq st1 k)))) = sum (lens (getseq st j0))).
+    { rewrite G1. cbn [sbuf]. change (rows (getbuf (heap st1) (length (heap st)))) with (rows_of st1 (length (heap st))).
+      rewrite R1, concat_length_sum, contents_lengths; auto. }
+    assert (HB : sbuf (getseq st1 k) < length (heap st1)) by apply (wf_seq _ W1 k Hk).
+    pose proof (wf_heap _ W1 _ HB) as HC. unfold rows_of in HC.
+    apply wf_set_buf_ge; auto; cbn [rows cap]; rewrite LZ, <- LR; [exact HC|apply le_n].
+  - (* OGetCols *)
+    destruct (is_live st i) eqn:L; simpl; auto. apply is_live_lt in L.
+    destruct (positions _ ix) as [ps|] eqn:P; simpl; auto.
+    apply positions_bound in P. destruct (wf_seq _ W i L) as (_ & S2 & _).
+    unfold new_view. apply wf_add_view; auto.
+    + rewrite !pick_length; auto.
+    + apply incl_pick; auto.
 Qed.
 
 Theorem wf_exec ops : forall st, wf st -> wf (exec st ops).
